@@ -87,7 +87,7 @@ def _catalogue() -> list[dict]:
     for meta in sorted(glob.glob(os.path.join(VERIF, "seeded", "*", "meta.json"))):
         with open(meta) as f:
             m = json.load(f)
-        cat.append({"id": "seeded-" + os.path.basename(os.path.dirname(meta)), "property": m["property"], "kind": "seeded", "patch": os.path.join(os.path.dirname(meta), "patch.diff"), "expected": m.get("expected", "killed"), "check": m.get("check_args", [])})
+        cat.append({"id": "seeded-" + os.path.basename(os.path.dirname(meta)), "property": m.get("check_property", m["property"]), "kind": "seeded", "patch": os.path.join(os.path.dirname(meta), "patch.diff"), "expected": m.get("expected", "killed"), "check": m.get("check_args", [])})
     for p in sorted(glob.glob(os.path.join(VERIF, "selftest", "mutants", "*.patch"))):
         name = os.path.basename(p)[:-6]
         cat.append({"id": "mutant-" + name, "property": name.split("-")[0], "kind": "mutant", "patch": p, "expected": "killed"})
